@@ -115,7 +115,12 @@ func (P *curvePoint) Embed(data []byte, rand cipher.Stream) kyber.Point {
 			b[l-1] = byte(dl)         // Encode length in low 8 bits
 			copy(b[l-dl-1:l-1], data) // Copy in data to embed
 		}
-		if P.genPoint(new(big.Int).SetBytes(b), rand) {
+		x := new(big.Int).SetBytes(b)
+		if x.Cmp(P.c.p.P) >= 0 {
+			// not a field element: genPoint would keep x unreduced
+			continue
+		}
+		if P.genPoint(x, rand) {
 			return P
 		}
 	}
